@@ -86,7 +86,7 @@ def build_middlewares(specs: List[Dict[str, Any]], ev: Events, is_async: bool, p
     return out
 
 
-def build_handlers(table: Optional[Dict[str, Any]], ev: Events, is_async: bool, point: Any = None) -> Dict[Any, List[Any]]:
+def build_handlers(table: Optional[Dict[str, Any]], ev: Events, is_async: bool, point: Any = None, observe_cause: bool = False) -> Dict[Any, List[Any]]:
     import pjrpc
     if not table:
         return {}
@@ -109,6 +109,9 @@ def build_handlers(table: Optional[Dict[str, Any]], ev: Events, is_async: bool, 
 
         def apply(request, context, error):
             ev.log.append(['eh', n, key, error.code, request.method, request.id, ev.ctx(context)])
+            if observe_cause:
+                # what a handler that maps internal failures to application errors looks at (differential checks only: no model predicts it)
+                ev.log[-1].append(['cause', type(error.__cause__).__name__, type(error).__name__])
             if kind == 'identity':
                 return error
             if kind == 'annotate':
